@@ -10,6 +10,8 @@
 #include <stdlib.h>
 #include <string.h>
 #include <inttypes.h>
+#include <signal.h>
+#include <unistd.h>
 
 #define NT 4
 #define NS 2
@@ -127,7 +129,7 @@ static void pr_key(char *o, Janet x) {
 /* argument token -> Janet.  K<i> pool key, nil, nan, integer literal (as number), f<double>, s<text> string, v<n> value id,
  * T<i>/S<i>/A<i>/B<i> register, [a,b,...] tuple of value ids */
 static int parse_arg(const char *t, Janet *out) {
-    if (!strcmp(t, "nil")) { *out = janet_wrap_nil(); return 1; }
+    if (!strcmp(t, "nil") || !strcmp(t, "/")) { *out = janet_wrap_nil(); return 1; }
     if (!strcmp(t, "nan")) { *out = janet_wrap_number(0.0 / 0.0); return 1; }
     if (!strcmp(t, "true")) { *out = janet_wrap_true(); return 1; }
     if (!strcmp(t, "false")) { *out = janet_wrap_false(); return 1; }
@@ -228,7 +230,12 @@ static void reset_regs(void) {
 
 static int reg(const char *t, char kind, int n) { if (t[0] != kind) return -1; int i = atoi(t + 1); return (i >= 0 && i < n) ? i : -1; }
 
+/* hang detection: every op must finish within OP_TIMEOUT seconds, otherwise the process exits with status 97 */
+#define OP_TIMEOUT 5
+static void on_alarm(int sig) { (void) sig; _exit(97); }
+
 int main(int argc, char **argv) {
+    signal(SIGALRM, on_alarm);
     janet_init();
     core_env = janet_core_env(NULL);
     janet_gcroot(janet_wrap_table(core_env));
@@ -246,6 +253,7 @@ int main(int argc, char **argv) {
     char kb[64], vb[64];
     while ((n = getline(&line, &cap, stdin)) > 0) {
         while (n > 0 && (line[n - 1] == '\n' || line[n - 1] == '\r' || line[n - 1] == ' ')) line[--n] = 0;
+        alarm(OP_TIMEOUT);
         char *tok[MAXTOK]; int nt = 0;
         for (char *p = strtok(line, " "); p && nt < MAXTOK; p = strtok(NULL, " ")) tok[nt++] = p;
         if (nt == 0) { printf("bad-op\n"); continue; }
@@ -301,6 +309,35 @@ int main(int argc, char **argv) {
             } else printf("err");
         }
         else if (!strcmp(op, "merge") && t0 >= 0 && na >= 2) { printf(call("merge-into", na, a, &r) ? "ok" : "err"); }
+        /* constructor-like boot.janet functions, run by the real interpreter: the result goes to T<dst> */
+        else if (!strcmp(op, "mergenew") && t0 >= 0) { /* mergenew D src... = (merge ;srcs) */
+            if (call("merge", na - 1, a + 1, &r) && janet_checktype(r, JANET_TABLE)) { set_T(t0, janet_unwrap_table(r)); printf("ok"); } else printf("err"); }
+        else if (!strcmp(op, "zipcoll") && t0 >= 0) { /* zipcoll D k.. / v.. */
+            int sep = -1; for (int i = 2; i < nt; i++) if (!strcmp(tok[i], "/")) { sep = i; break; }
+            if (sep < 0) { printf("bad-op\n"); continue; }
+            Janet kv2[2];
+            kv2[0] = janet_wrap_tuple(janet_tuple_n(a + 1, sep - 2));
+            kv2[1] = janet_wrap_tuple(janet_tuple_n(a + sep, nt - sep - 1));
+            if (call("zipcoll", 2, kv2, &r) && janet_checktype(r, JANET_TABLE)) { set_T(t0, janet_unwrap_table(r)); printf("ok"); } else printf("err"); }
+        else if (!strcmp(op, "frompairs") && t0 >= 0 && (na % 2) == 1) { /* frompairs D k v k v ... */
+            Janet *ps = janet_smalloc(sizeof(Janet) * (size_t)(na / 2 + 1));
+            for (int i = 0; i < na / 2; i++) ps[i] = janet_wrap_tuple(janet_tuple_n(a + 1 + 2 * i, 2));
+            Janet arg = janet_wrap_tuple(janet_tuple_n(ps, na / 2));
+            janet_sfree(ps);
+            if (call("from-pairs", 1, &arg, &r) && janet_checktype(r, JANET_TABLE)) { set_T(t0, janet_unwrap_table(r)); printf("ok"); } else printf("err"); }
+        else if (!strcmp(op, "update") && t0 >= 0 && na == 2) { /* (update T k identity): reads through the prototypes, writes the own table */
+            Janet args[3]; args[0] = a[0]; args[1] = a[1]; args[2] = resolve("identity");
+            printf(call("update", 3, args, &r) ? "ok" : "err"); }
+        else if (!strcmp(op, "getproto") && na == 1 && (t0 >= 0 || s0 >= 0)) {
+            if (call(t0 >= 0 ? "table/getproto" : "struct/getproto", 1, a, &r)) {
+                if (janet_checktype(r, JANET_NIL)) printf("nil");
+                else {
+                    int p = -2;
+                    if (t0 >= 0) { for (int j = NT - 1; j >= 0; j--) if (janet_checktype(r, JANET_TABLE) && janet_unwrap_table(r) == T[j]) p = j; }
+                    else { for (int j = NS - 1; j >= 0; j--) if (janet_checktype(r, JANET_STRUCT) && janet_unwrap_struct(r) == S[j]) p = j; }
+                    printf("%d", p);
+                }
+            } else printf("err"); }
         else if (!strcmp(op, "cmerge") && t0 >= 0 && na >= 2) { /* the C entry points janet_table_merge_table / _struct */
             for (int i = 1; i < na; i++) { if (janet_checktype(a[i], JANET_TABLE)) janet_table_merge_table(T[t0], janet_unwrap_table(a[i])); else if (janet_checktype(a[i], JANET_STRUCT)) janet_table_merge_struct(T[t0], janet_unwrap_struct(a[i])); }
             printf("ok"); }
@@ -351,6 +388,7 @@ int main(int argc, char **argv) {
         else { printf("bad-op\n"); continue; }
         pr_state();
     }
+    alarm(0);
     free(line);
     fflush(stdout);
     return 0;
